@@ -90,6 +90,19 @@ func parseString(filename string, input antlr.CharStream) (tree parser.ISysl_fil
 	return tree, nil
 }
 
+// guarded runs fn and converts a panic raised by a tree-listener callback or by
+// post-processing into a ParseError naming filename, the way parseString does
+// for the ANTLR stage.
+func guarded(filename string, fn func()) (err error) {
+	defer func() {
+		if r := recover(); r != nil {
+			err = syslutil.Exitf(ParseError, "%s: %v\n", filename, r)
+		}
+	}()
+	fn()
+	return nil
+}
+
 func importForeign(def importDef, input antlr.CharStream) (antlr.CharStream, error) {
 	logger := logrus.StandardLogger()
 	fileName, _ := mod.ExtractVersion(def.filename)
@@ -337,12 +350,22 @@ func (p *Parser) parseSpecs(specs []srcInput, listener *TreeShapeListener) (*sys
 		}
 
 		walker := antlr.NewParseTreeWalker()
-		walker.Walk(listener, tree)
+		if err := guarded(src.filename, func() { walker.Walk(listener, tree) }); err != nil {
+			return nil, err
+		}
 	}
 
-	listener.lintAppDefs()
-	listener.lintEndpoint()
-	p.postProcess(listener.module)
+	root := ""
+	if len(specs) > 0 {
+		root = specs[0].src.filename
+	}
+	if err := guarded(root, func() {
+		listener.lintAppDefs()
+		listener.lintEndpoint()
+		p.postProcess(listener.module)
+	}); err != nil {
+		return nil, err
+	}
 	return listener.module, nil
 }
 
@@ -509,7 +532,9 @@ func parseImports(parent importDef, src sourceCtxHelper, input string) ([]import
 	}
 
 	walker := antlr.NewParseTreeWalker()
-	walker.Walk(listener, tree)
+	if err := guarded(parent.filename, func() { walker.Walk(listener, tree) }); err != nil {
+		return nil, err
+	}
 
 	return listener.imports, nil
 }
